@@ -18,9 +18,9 @@ CHECKS = {
    design_ref="DESIGN.md 4.5, 5 (C16)",
    note="Trusts: the fake http.RoundTripper as the cloud; uuid renumbering; LRU capacity forced to 2; backoff Steps=1 (one request per call)."),
  "C17": dict(
-   technique="TLA+ spec VSwitch.tla model-checked by TLC; TLC-simulated + random scenarios replayed on the real SwitchPool (fake clock, fake VPC) and validated line by line; concurrent rounds linearized by TLC (VSwitch_conc.tla)",
+   technique="TLA+ spec VSwitch.tla model-checked by TLC; TLC-simulated + random scenarios replayed on the real SwitchPool (fake clock, fake VPC) and validated line by line; concurrent rounds (cold cache, slow lookups) judged by TLC on what each call can have seen, Block atomic (VSwitch_conc.tla)",
    category="model_checking",
-   text="VSwitch.tla gives GetOne/Block/expiry as actions whose guards are the property clauses (member of candidates, zone unless fallback, free>0 on the cached snapshot, ordered=first eligible, most=max free, blocked until expiry, caller slice unchanged). Sequential executions of the real selector are fully logged and must be behaviours of the spec; concurrent executions must be linearizable to it.",
+   text="VSwitch.tla gives GetOne/Block/expiry as actions whose guards are the property clauses (member of candidates, zone unless fallback, free>0 on the cached snapshot, ordered=first eligible, most=max free, blocked until expiry, caller slice unchanged). Sequential executions of the real selector are fully logged and must be behaviours of the spec; in concurrent executions Block is atomic and a selection must be explainable by the values its candidates' cache entries had while the call was in progress.",
    design_ref="DESIGN.md 4.5, 5 (C17)",
    note="Trusts: fake VPC and fake clock; concurrent rounds use a static cloud and no expiry; data-race freedom itself is not decided."),
 
@@ -29,15 +29,15 @@ CHECKS = {
    category="model_checking",
    text="Every recorded execution of the real pool (concurrent ADD / repeated ADD / cancel / DEL / replayed DEL / balancer / sync / remote removal / cloud faults) must be a behaviour of NodePool.tla with the C01 guards on: exclusive hand-out judged on what callers were told, hand-out only of addresses live during the request, repeated ADD returns the same address.",
    design_ref="DESIGN.md 4.1, 5 (C01)",
-   note="Trusts the fake factory.Factory; schedules are whatever the Go scheduler produced under the driver's stimuli (bursts, jitter), not enumerated; 300 ms factory rounds are real time."),
+   note="Pool stages trust the fake factory.Factory (whose contract the factory layer checks: real pkg/factory/aliyun + OpenAPI client + metadata reader on a fake HTTP cloud, specs/Factory.tla, C01 clauses pushed down); schedules are what the Go scheduler produced under the driver's stimuli plus forced ones (slow waiter, balancer armed on a cloud call's end); internal state is bound by PoolSlot.tla at critical-section grain."),
  "C06": dict(
-   technique="same traces as C01 validated against NodePool.tla with Enforce={C06}: every cloud call's arguments are judged at its begin event",
+   technique="same traces as C01 validated against NodePool.tla with Enforce={C06}: every cloud call's arguments are judged at its begin event; critical-section projections against PoolSlot.tla; the factory layer (Factory.tla) with the C06 clauses at the OpenAPI boundary",
    category="model_checking",
    text="Quota clauses (addresses per interface, interfaces per node) and disposal clauses (never unassign a held or primary address, never delete trunk/RDMA or an interface in use) are guards of the cloud-call actions; HeldBacked/Quota invariants are evaluated in every state of every validated trace.",
    design_ref="DESIGN.md 4.1, 5 (C06)",
-   note="'pending requests' on an interface being deleted are not observable at this grain; covered indirectly by the hand-out validity clause of C01."),
+   note="'pending requests' on an interface being deleted are judged on the lock projections (PoolSlot.tla: InUse->Deleting only with empty queues)."),
  "C07": dict(
-   technique="same traces as C01; every scenario ends with a drain and a quiescent observation (pool Status() next to the cloud state) judged by NodePool.tla's Quiescent action with Enforce={C07}",
+   technique="same traces as C01; every scenario ends with a drain and a quiescent observation (pool Status() next to the cloud state) judged by NodePool.tla's Quiescent action with Enforce={C07}; below the pool the real cloud factory + OpenAPI client + metadata reader on a fake HTTP cloud (virtual clock, full stack with the real pool) judged by Factory.tla with the C07 clauses (created = reported or gone)",
    category="model_checking",
    text="At quiescence: tracked interfaces = cloud interfaces, no orphan address in the cloud, nothing tracked as valid that the cloud lacks, no ghost owner, idle reserve inside the min/max band after a healthy drain.",
    design_ref="DESIGN.md 4.1, 5 (C07)",
@@ -47,7 +47,7 @@ CHECKS = {
    category="model_checking",
    text="Exhaustive within a finite domain of allocation shapes (local, CRD, PodENI multi-interface, v4/v6/dual, trunk, default-route flag vectors, subnets, bandwidth overrides); relation written from the property text over byte tuples.",
    design_ref="DESIGN.md 2.6, 5 (C12)",
-   note="The node-local pool's resource is harness-built; finite domain."),
+   note="Local results come from the real Local + Manager on a fake factory after a pre-history (localpool kind) and from a stub (local kind); finite domain."),
  "C15": dict(
    technique="TLA+ function spec Inputs.tla: bounded token language per user-writable field enumerated by TLC, real parsers run under recover, TLC judges",
    category="model_checking",
